@@ -15,6 +15,7 @@ def run(ctx, rep):
     termination.rule_native_loops_terminate(ctx, rep, "C01-R8")
     termination.rule_prototype_chains_acyclic(ctx, rep, "C01-R8b")
     frontend.rule_parse_polls_deadline(ctx, rep, "C01-R10")
+    limits.rule_nested_interpreter_polls(ctx, rep, "C01-R11")
     rep.undecided += [
         "size of the overrun in seconds (runtime quantity)",
         "cost of a single native call on bounded operands (excluded by the property's scope)",
